@@ -5,12 +5,10 @@ package main
 //   discoveredServers  constructors in pkg/trait/* returning a struct that embeds a generated
 //                      Unimplemented…ApiServer (the server implementations), read from the source tree
 //   drivenServers      the rows of this harness's hand-listed stackTable
-//   triples            for every server type: each GetX/UpdateX/PullX method trio it declares, with the
-//                      syntactic shape of the translation (read_mask → WithReadMask, update_mask →
-//                      WithUpdateMask, updates_only → WithUpdatesOnly, request name echoed in changes)
+//   methodTrios        for every server type: the names of the GetX/UpdateX/PullX method trios it declares
+//                      (informational; the translation itself is checked behaviourally by the acceptor)
 
 import (
-	"fmt"
 	"go/ast"
 	"go/parser"
 	"go/token"
@@ -40,77 +38,6 @@ func recvTypeName(fd *ast.FuncDecl) string {
 		return id.Name
 	}
 	return ""
-}
-
-// reqParam is the name of the request parameter of a server method (the one that is not ctx / stream).
-func reqParam(fd *ast.FuncDecl, streaming bool) string {
-	if fd.Type.Params == nil {
-		return ""
-	}
-	idx := 1
-	if streaming {
-		idx = 0
-	}
-	k := 0
-	for _, f := range fd.Type.Params.List {
-		for _, n := range f.Names {
-			if k == idx {
-				return n.Name
-			}
-			k++
-		}
-	}
-	return ""
-}
-
-// usesOpt: the body contains a call <anything>.<opt>( req.<Field> | req.Get<Field>() ).
-func usesOpt(body *ast.BlockStmt, opt, req, field string) bool {
-	found := false
-	ast.Inspect(body, func(n ast.Node) bool {
-		c, ok := n.(*ast.CallExpr)
-		if !ok || len(c.Args) != 1 {
-			return true
-		}
-		sel, ok := c.Fun.(*ast.SelectorExpr)
-		if !ok || sel.Sel.Name != opt {
-			return true
-		}
-		if isReqField(c.Args[0], req, field) {
-			found = true
-		}
-		return true
-	})
-	return found
-}
-
-func isReqField(e ast.Expr, req, field string) bool {
-	switch x := e.(type) {
-	case *ast.SelectorExpr:
-		id, ok := x.X.(*ast.Ident)
-		return ok && id.Name == req && x.Sel.Name == field
-	case *ast.CallExpr:
-		if sel, ok := x.Fun.(*ast.SelectorExpr); ok && len(x.Args) == 0 {
-			id, ok := sel.X.(*ast.Ident)
-			return ok && id.Name == req && sel.Sel.Name == "Get"+field
-		}
-	}
-	return false
-}
-
-// echoesName: the body builds a composite literal with `Name: req.Name` (or req.GetName()).
-func echoesName(body *ast.BlockStmt, req string) bool {
-	found := false
-	ast.Inspect(body, func(n ast.Node) bool {
-		kv, ok := n.(*ast.KeyValueExpr)
-		if !ok {
-			return true
-		}
-		if k, ok := kv.Key.(*ast.Ident); ok && k.Name == "Name" && isReqField(kv.Value, req, "Name") {
-			found = true
-		}
-		return true
-	})
-	return found
 }
 
 func leanStr(s string) string {
@@ -225,16 +152,7 @@ func writeFacts(path string) error {
 				if u == nil || p == nil || u.Body == nil || p.Body == nil {
 					continue
 				}
-				gr, ur, pr := reqParam(g, false), reqParam(u, false), reqParam(p, true)
-				facts = append(facts, tripleFact{
-					Key:      e.Name() + "." + ctor + "/" + x,
-					GetMask:  usesOpt(g.Body, "WithReadMask", gr, "ReadMask"),
-					UpdMask:  usesOpt(u.Body, "WithUpdateMask", ur, "UpdateMask"),
-					PullMask: usesOpt(p.Body, "WithReadMask", pr, "ReadMask"),
-					PullUO:   usesOpt(p.Body, "WithUpdatesOnly", pr, "UpdatesOnly"),
-					PullName: echoesName(p.Body, pr),
-					GetParam: gr, UpdParam: ur, PullParam: pr,
-				})
+				facts = append(facts, tripleFact{Key: e.Name() + "." + ctor + "/" + x})
 			}
 		}
 	}
